@@ -12,7 +12,7 @@ Sig(n) ==
     \o (IF Has(n, " ") THEN "[space]" ELSE "") \o (IF Has(n, "%") THEN "[percent]" ELSE "")
     \o (IF Has(n, "#") THEN "[hash]" ELSE "") \o (IF Has(n, "?") THEN "[question]" ELSE "")
     \o (IF Has(n, ";") THEN "[semicolon]" ELSE "") \o (IF Has(n, "+") THEN "[plus]" ELSE "")
-    \o (IF Has(n, "e'") THEN "[non-ascii]" ELSE "")
+    \o (IF Has(n, "e'") THEN "[non-ascii]" ELSE "") \o (IF Has(n, "ca") THEN "[combining]" ELSE "")
 
 \* per name: r = [name, frontend, prefix, put, ctx : context -> verdict]
 JudgeName(r, i) ==
